@@ -135,6 +135,7 @@ type Exec struct {
 	callN  map[string]int
 	top    *Exec
 	aliasedBuf    *Alloc
+	inlineAll     bool
 	usedDirs      map[int]bool
 	phiNames      map[*ssa.Phi]string
 	curPhi        *ssa.Phi
